@@ -93,14 +93,19 @@ var c07Tokens = []string{
 	"->", "---", " ", "\n", "\r", "x", "A", "=", "QUFB",
 	strings.Repeat("QUFB", 16),                    // full 64-column line
 	strings.Repeat("QUFB", 16) + "Q",              // 65 columns
+	strings.Repeat("QUFB", 16) + "QQ",             // 66 columns (49 bytes)
+	strings.Repeat("QUFB", 16) + "QUE",            // 67 columns (50 bytes)
 	"Vn+54jqiiUCE+WZcEVY3f1sqHjlu/z1LCQ/T7Xm7qI0", // a 43-character MAC
 	"-",
 }
 
+// the reduced alphabet enumerated one token deeper
+var c07TokensCore = []string{"->", "---", " ", "\n", "x", "QUFB", strings.Repeat("QUFB", 16), strings.Repeat("QUFB", 16) + "QQ", "Vn+54jqiiUCE+WZcEVY3f1sqHjlu/z1LCQ/T7Xm7qI0"}
+
 const c07MAC = "Vn+54jqiiUCE+WZcEVY3f1sqHjlu/z1LCQ/T7Xm7qI0"
 
 // c07Enumerate runs oracle A over prefix × tokens^≤L × suffix.
-func c07Enumerate(s *pbt.Session, L int) {
+func c07Enumerate(s *pbt.Session, L int, c07Tokens []string) {
 	prefixes := []string{"", "-> X25519 abc\nQUFB\n", "-> t\n"}
 	suffixes := []string{"", "--- " + c07MAC + "\n", "--- " + c07MAC + "\nPAYLOAD\n--- x\n", "\n--- " + c07MAC + "\n"}
 	nt := len(c07Tokens)
@@ -348,11 +353,12 @@ func TestC07(t *testing.T) {
 
 	// A1: token-exhaustive strings after the intro line
 	if !s.Replaying() {
-		L := 5
+		L := 4
 		if s.Thorough() {
-			L = 6
+			L = 5
 		}
-		c07Enumerate(s, L)
+		c07Enumerate(s, L, c07Tokens)
+		c07Enumerate(s, L+1, c07TokensCore)
 		// the intro line under every single-byte edit
 		base := []byte(refage.Intro + "--- " + c07MAC + "\n")
 		n := 0
